@@ -57,10 +57,22 @@ async def idle_case(part, m, r, script, backend='dict', end='DONE'):
             await writers[0].send(b'w APPEND INBOX {%d+}\r\n' % len(body) + body + b'\r\n')
         for w in writers:
             await w.send(b'w SELECT INBOX\r\n')
-        raw = await a.send(b'a SELECT INBOX\r\n')
+        # what the idler did before IDLE: ['pre', examine?, [op, ...]] in front of the script (ops in the l3 format; refused commands and
+        # `.SILENT` stores included — none of them may leave anything armed that delays or swallows what IDLE has to push)
+        examine, prelude = False, []
+        if script and script[0][0] == 'pre':
+            examine, prelude = bool(script[0][1]), script[0][2]
+            script = script[1:]
+        raw = await a.send(b'a EXAMINE INBOX\r\n' if examine else b'a SELECT INBOX\r\n')
         sh = l3.ShadowClient()
         st, code, items = l3.canon_real(raw)
-        sh.on_select([it[1] for it in items if it[0] == 'EXISTS'][-1], box=0, ro=False)
+        sh.on_select([it[1] for it in items if it[0] == 'EXISTS'][-1], box=0, ro=examine)
+        for op in prelude:
+            raw = await a.send(l3.op_bytes(op))
+            st, code, items = l3.canon_real(raw)
+            if st == 'OK' and op[0] == 'store':
+                sh.own_silent_store(op)
+            sh.apply(items, op, l3.hides(op))
         raw = await a.send(b'i IDLE\r\n')
         if not raw.startswith(b'+'):
             part.violation('monitor', f'IDLE was not accepted: {raw!r}', case, signature='idle-refused')
@@ -179,7 +191,7 @@ async def idle_case(part, m, r, script, backend='dict', end='DONE'):
         told_count = len(sh.msgs) if sh.msgs is not None else -1
         told_flags = [f[0] if f is not None else None for f in (sh.flags or [])]
         delivered = told_count == len(actual) and all(t is None or t == x for t, x in zip(told_flags, actual))
-        part.case(key=repr((backend, script, end)), nontrivial=in_window, sample=dict(backend=backend, script=[' '.join(map(str, s)) for s in script[:10]]))
+        part.case(key=repr((backend, case['script'], end)), nontrivial=in_window, sample=dict(backend=backend, script=[' '.join(map(str, s)) for s in script[:10]]))
         part.trace()
         for e in sh.errors:
             part.violation('monitor', f'sequence-number rules broken by data pushed during IDLE: {e} (script {script})', case, signature='idle-seq')
@@ -206,8 +218,15 @@ async def idle_case(part, m, r, script, backend='dict', end='DONE'):
             backends.rmtree(base)
 
 
+PRELUDE_OPS = [['store', 0, False, '1', 1, [1], False], ['store', 0, False, '1', 1, [1], True], ['store', 0, False, '1:*', 2, [0], True], ['store', 0, False, '2', 1, [3], True],
+               ['store', 0, True, '101', 1, [4], True], ['fetch', 0, False, '1:*', ['FLAGS']], ['fetch', 0, True, '1:*', ['FLAGS']], ['search', 0, False, None, None, []],
+               ['copy', 0, False, False, '1', 3, 0], ['copy', 0, True, False, '1', 3, 0], ['expunge', 0, None], ['fetch', 0, False, '9', ['FLAGS']], ['noop', 0]]
+
+
 def gen_script(r):
     script = []
+    if r.random() < 0.4:
+        script.append(['pre', r.random() < 0.6, [r.choice(PRELUDE_OPS) for _ in range(r.randint(1, 2))]])
     for _ in range(r.randint(2, 9)):
         x = r.random()
         if x < 0.3:
@@ -227,6 +246,9 @@ def gen_script(r):
 
 
 CORPUS = [
+    # a refused non-UID STORE (read-only selection) right before IDLE, then an EXPUNGE by someone else (seeded C16-b)
+    [['pre', True, [['store', 0, False, '1', 1, [1], False]]], ['mut', 0, 'expunge', 0]],
+    [['pre', True, [['store', 0, False, '2', 1, [1], True]]], ['mut', 0, 'store', 1, 1, [1]]],
     # D23: the second change lands while the idler drains the notification of the first
     [['mut', 0, 'append', []], ['mut', 1, 'append', [0]]],
     [['mut', 0, 'append', []], ['mut', 1, 'store', 0, 1, [1]], ['mut', 0, 'expunge', 1]],
